@@ -34,19 +34,38 @@ func New[T any](ctx context.Context, cap int) (<-chan T, chan<- T) {
 
 	go func() {
 		defer close(eg)
-		defer close(in)
+
+		// flush delivers the backlog to the receiver
+		flush := func() {
+			for mq.head != nil {
+				eg <- head(mq)
+				deq(mq)
+			}
+		}
 
 		for {
 			select {
 			case <-ctx.Done():
-				for mq.head != nil {
-					eg <- head(mq)
-					deq(mq)
+				// accept values already handed over by the sender
+				for open := true; open; {
+					select {
+					case x, ok := <-in:
+						if !ok {
+							flush()
+							return
+						}
+						enq(&x, mq)
+					default:
+						open = false
+					}
 				}
+				flush()
 				return
 
 			case x, ok := <-in:
 				if !ok {
+					// closed by the sender, end of stream
+					flush()
 					return
 				}
 				enq(&x, mq)
